@@ -2557,3 +2557,15 @@ mod tests {
         Ok(())
     }
 }
+
+/*
+ * Verification hook (feature "verif", off by default): read-only view of the
+ * bytes received but not yet parsed.  Does not alter behaviour.
+ */
+#[cfg(feature = "verif")]
+impl SummaryStream {
+    #[doc(hidden)]
+    pub fn verif_buf(&self) -> &[u8] {
+        &self.buf
+    }
+}
